@@ -126,7 +126,10 @@ def decide(prop, tier, seed=0, use_cache=True, out=sys.stdout):
                 if f["class"] == "misfit":
                     # failure inside a function whose proof script lost an anchor / loop / rule: undecided, like a compile error
                     if not any(u[0] == unit and u[1] == "script-misfit" for u in undecided_units):
-                        undecided_units.append((unit, "script-misfit", ["proof script no longer fits %s: %s" % (f["fn"], "; ".join(w["what"] for w in r.get("extract_warnings", [])[:3]))],
+                        why = "; ".join(w["what"] for w in r.get("extract_warnings", [])[:3])
+                        if f.get("kind") == "rlimit":
+                            why = (why + "; " if why else "") + "resource limit exceeded in %s (solver gave up: neither proved nor refuted)" % f["fn"]
+                        undecided_units.append((unit, "script-misfit", ["proof script no longer fits %s: %s" % (f["fn"], why)],
                                                 sorted(set(x["fn"] for x in fails_here if x["class"] == "misfit"))))
                     continue
                 (sem_fail if f["class"] == "semantic" else aux_fail).append(dict(f, engine="verus", unit=unit))
